@@ -1,7 +1,316 @@
 import AlgoVerif.Model.C14
 import AlgoVerif.Model.C14W
 import AlgoVerif.Spec.C14
-/-! # C14 — property theorems (under construction) -/
+import AlgoVerif.Proofs.C14PathsTop
+import AlgoVerif.Proofs.C14Build
+import AlgoVerif.Proofs.C14Bfs
+import AlgoVerif.Proofs.C14Comp
+import AlgoVerif.Proofs.C14Cycle
+import AlgoVerif.Proofs.C14Topo
+import AlgoVerif.Proofs.C14Scc
+import AlgoVerif.Proofs.C14Cert
+import AlgoVerif.Proofs.C14Dijkstra
+import AlgoVerif.Proofs.C14Prim
+/-!
+# C14 — property theorems
+
+`g : Graph` is the Model of any of the four Go graph types; `g.WF` is what `NewX(V)` + `AddEdge` establish
+(`C14_build_directed` / `C14_build_undirected`: every graph built from a vertex count and an edge list is
+well-formed, and its arc relation `g.HasArc` is the edge relation of the edge list).
+Helper lemmas: `Proofs/C14*.lean`.
+-/
 open AlgoVerif AlgoVerif.C14
 
-theorem C14_placeholder : (Graph.new 0).n = 0 := rfl
+/-! ## graphs given as vertex count and edge list -/
+
+/-- `NewDirected(n, es…)`: well-formed, `n` vertices, arcs = the valid edges of the list. -/
+theorem C14_build_directed (n : Nat) (es : List EdgeIn) :
+    (buildDirected n es).WF ∧ (buildDirected n es).n = n ∧
+      ∀ a b, (buildDirected n es).HasArc a b ↔ DirE n es a b :=
+  buildDirected_spec n es
+
+/-- `NewUndirected(n, es…)`: additionally symmetric, arcs = valid edges in both directions. -/
+theorem C14_build_undirected (n : Nat) (es : List EdgeIn) :
+    (buildUndirected n es).WF ∧ (buildUndirected n es).Symmetric ∧ (buildUndirected n es).n = n ∧
+      ∀ a b, (buildUndirected n es).HasArc a b ↔ UndirE n es a b :=
+  buildUndirected_spec n es
+
+/-- a directed multigraph with a cycle, a self-loop, parallel edges, an ignored edge and an unreachable vertex -/
+def C14_exD : Graph :=
+  buildDirected 5 [⟨0, 1, 0⟩, ⟨0, 1, 0⟩, ⟨1, 2, 0⟩, ⟨2, 2, 0⟩, ⟨2, 0, 0⟩, ⟨0, 3, 0⟩, ⟨7, 1, 0⟩, ⟨2, 3, 0⟩]
+
+example : C14_exD.WF ∧ C14_exD.HasArc 2 0 ∧ ¬ C14_exD.HasArc 4 1 := by
+  obtain ⟨h1, _, h3⟩ := C14_build_directed 5 [⟨0, 1, 0⟩, ⟨0, 1, 0⟩, ⟨1, 2, 0⟩, ⟨2, 2, 0⟩, ⟨2, 0, 0⟩, ⟨0, 3, 0⟩, ⟨7, 1, 0⟩, ⟨2, 3, 0⟩]
+  refine ⟨h1, (h3 2 0).2 ⟨⟨2, 0, 0⟩, by simp, by decide⟩, fun h => ?_⟩
+  obtain ⟨e, he, h⟩ := (h3 4 1).1 h
+  simp at he
+  rcases he with rfl | rfl | rfl | rfl | rfl | rfl | rfl | rfl <;> simp at h
+
+/-! ## Paths (DFS, DFSi, BFS) -/
+
+/-- **Totality.** `Paths(s, strategy)` returns for every source (valid or not) and every strategy — the
+traversal loops never run out of fuel (`diverge`) and never index out of range (`panic`) — and `To(v)`
+returns for every `v` in `[0, n)`; outside it panics (the Go code indexes `visited[v]`). -/
+theorem C14_paths_total (g : Graph) (hg : g.WF) (s : Int) (strat : Strategy) :
+    ∃ p, g.paths s strat = .ok p ∧
+      ∀ v : Int, (0 ≤ v ∧ v < (g.n : Int) → ∃ r, p.to v = .ok r) ∧
+                 (¬ (0 ≤ v ∧ v < (g.n : Int)) → p.to v = .panic) := by
+  obtain ⟨p, h1, _, h3⟩ := paths_to_cases hg s strat
+  refine ⟨p, h1, fun v => ⟨fun hv => ?_, (h3 v).1⟩⟩
+  rcases (h3 v).2 hv with ⟨_, _, _, path, h, _⟩ | ⟨_, h⟩
+  · exact ⟨_, h⟩
+  · exact ⟨_, h⟩
+
+/-- **Soundness.** Whatever `To(v)` returns is a real path: source and target are vertices, the list starts
+at `s`, ends at `v`, and consecutive vertices are joined by an arc of the graph. -/
+theorem C14_paths_sound (g : Graph) (hg : g.WF) (s : Int) (strat : Strategy) (p : Paths) (v : Int)
+    (path : List Nat) (hp : g.paths s strat = .ok p) (hto : p.to v = .ok (some path)) :
+    0 ≤ s ∧ s < (g.n : Int) ∧ 0 ≤ v ∧ v < (g.n : Int) ∧ WalkFromTo g.HasArc s.toNat v.toNat path := by
+  obtain ⟨p', h1, _, h3⟩ := paths_to_cases hg s strat
+  have : p' = p := by rw [h1] at hp; exact Outcome.ok.inj hp
+  subst this
+  by_cases hv : 0 ≤ v ∧ v < (g.n : Int)
+  · rcases (h3 v).2 hv with ⟨k1, k2, _, path', k4, k5⟩ | ⟨_, h⟩
+    · rw [k4] at hto
+      have : path' = path := by simpa using hto
+      subst this
+      exact ⟨k1, k2, hv.1, hv.2, k5⟩
+    · rw [h] at hto; simp at hto
+  · rw [(h3 v).1 hv] at hto; simp at hto
+
+/-- **Completeness.** If `v` is reachable from `s`, `To(v)` returns a path (for each of the three strategies). -/
+theorem C14_paths_complete (g : Graph) (hg : g.WF) (s v : Int) (strat : Strategy)
+    (hs : 0 ≤ s ∧ s < (g.n : Int)) (hv : 0 ≤ v ∧ v < (g.n : Int))
+    (hr : Reach g.HasArc s.toNat v.toNat) :
+    ∃ p path, g.paths s strat = .ok p ∧ p.to v = .ok (some path) ∧
+      WalkFromTo g.HasArc s.toNat v.toNat path := by
+  obtain ⟨p, h1, _, h3⟩ := paths_to_cases hg s strat
+  rcases (h3 v).2 hv with ⟨_, _, _, path, k4, k5⟩ | ⟨h, _⟩
+  · exact ⟨p, path, h1, k4, k5⟩
+  · exact absurd ⟨hs.1, hs.2, hr⟩ h
+
+/-- unreachable ⇒ `To(v)` answers `(nil, false)` -/
+theorem C14_paths_none_iff (g : Graph) (hg : g.WF) (s v : Int) (strat : Strategy) (p : Paths)
+    (hv : 0 ≤ v ∧ v < (g.n : Int)) (hp : g.paths s strat = .ok p) :
+    p.to v = .ok none ↔ ¬ (0 ≤ s ∧ s < (g.n : Int) ∧ Reach g.HasArc s.toNat v.toNat) := by
+  obtain ⟨p', h1, _, h3⟩ := paths_to_cases hg s strat
+  have : p' = p := by rw [h1] at hp; exact Outcome.ok.inj hp
+  subst this
+  rcases (h3 v).2 hv with ⟨k1, k2, k3, path, k4, _⟩ | ⟨h, k⟩
+  · rw [k4]; simp [k1, k2, k3]
+  · simp [k, h]
+
+-- non-vacuity: the three strategies find three different valid paths 0 → 3 in `C14_exD`, none to 4
+example : (C14_exD.paths 0 .dfs).bind (·.to 3) = .ok (some [0, 1, 2, 3]) := by decide
+example : (C14_exD.paths 0 .dfsi).bind (·.to 3) = .ok (some [0, 3]) := by decide
+example : (C14_exD.paths 0 .bfs).bind (·.to 2) = .ok (some [0, 1, 2]) := by decide
+example : (C14_exD.paths 0 .bfs).bind (·.to 4) = .ok none := by decide
+example : (C14_exD.paths 9 .bfs).bind (·.to 0) = .ok none := by decide
+example : (C14_exD.paths 0 .bfs).bind (·.to 5) = .panic := by decide
+
+/-- **BFS paths have the fewest edges.** The answer of `To(v)` after `Paths(s, BFS)` has at most as many
+edges (`path.length - 1`) as any walk from `s` to `v` (`WalkLen … m` = a walk of exactly `m` edges). -/
+theorem C14_bfs_fewest_edges (g : Graph) (hg : g.WF) (s v : Int) (p : Paths) (path : List Nat)
+    (hp : g.paths s .bfs = .ok p) (hto : p.to v = .ok (some path)) (m : Nat)
+    (hw : WalkLen g.HasArc s.toNat m v.toNat) : path.length ≤ m + 1 := by
+  obtain ⟨h1, h2, h3, h4, _⟩ := C14_paths_sound g hg s .bfs p v path hp hto
+  obtain ⟨s', rfl⟩ : ∃ s' : Nat, s = (s' : Int) := ⟨s.toNat, by omega⟩
+  obtain ⟨v', rfl⟩ : ∃ v' : Nat, v = (v' : Int) := ⟨v.toNat, by omega⟩
+  exact bfs_fewest hg s' (by omega) p hp v' path hto m (by simpa using hw)
+
+-- non-vacuity: DFS finds 0→1→2→3 (3 edges), BFS 0→3 (1 edge), and a 1-edge walk exists
+example : (C14_exD.paths 0 .bfs).bind (·.to 3) = .ok (some [0, 3]) := by decide
+example : WalkLen C14_exD.HasArc 0 1 3 := by
+  refine .succ .zero ?_
+  exact ⟨⟨3, ⟨0, 3, 0⟩⟩, by decide, rfl⟩
+
+/-! ## ConnectedComponents -/
+
+/-- **ConnectedComponents partitions the vertices exactly by reachability** (undirected = symmetric graphs):
+it returns; every vertex gets an id `< count`; every id `< count` is in use (so `count` is the number of
+components); two vertices have the same id iff one reaches the other. -/
+theorem C14_cc_partition (g : Graph) (hg : g.WF) (hsym : g.Symmetric) :
+    ∃ cc, g.connectedComponents = .ok cc ∧ cc.id.size = g.n ∧
+      (∀ x, x < g.n → ∃ i, cc.id[x]? = some i ∧ i < cc.count) ∧
+      (∀ i, i < cc.count → ∃ x, x < g.n ∧ cc.id[x]? = some i) ∧
+      (∀ x y, x < g.n → y < g.n → (cc.id[x]? = cc.id[y]? ↔ Reach g.HasArc x y)) :=
+  cc_spec hg hsym
+
+/-- three components: {0,1,2} (with parallel edges), {3} (self-loop), {4,5}; the edge 6–7 is ignored -/
+def C14_exU : Graph :=
+  buildUndirected 6 [⟨0, 1, 0⟩, ⟨1, 0, 0⟩, ⟨1, 2, 0⟩, ⟨3, 3, 0⟩, ⟨4, 5, 0⟩, ⟨6, 7, 0⟩]
+
+example : C14_exU.WF ∧ C14_exU.Symmetric :=
+  ⟨(C14_build_undirected _ _).1, (C14_build_undirected _ _).2.1⟩
+example : C14_exU.connectedComponents = .ok ⟨3, #[0, 0, 0, 1, 2, 2]⟩ := by decide
+
+/-! ## DirectedCycle and Topological -/
+
+/-- **A cycle is reported iff one exists, and the reported cycle is genuine**: `DirectedCycle` returns for every
+graph; `Cycle()` answers `(c, true)` only for a closed walk `c = [v, w, …, v]` along arcs with at least one
+edge; it answers `(nil, false)` iff the graph has no cycle. -/
+theorem C14_cycle_iff_and_genuine (g : Graph) (hg : g.WF) :
+    ∃ c, g.directedCycle = .ok c ∧
+      (∀ cyc, c.cycleList = some cyc → IsCycle g.HasArc cyc) ∧
+      (c.cycleList = none ↔ Acyclic g.HasArc) :=
+  directedCycle_spec hg
+
+example : (C14_exD.directedCycle).map (·.cycleList) = .ok (some [2, 2]) := by decide
+example : ((buildDirected 4 [⟨0, 1, 0⟩, ⟨1, 2, 0⟩, ⟨2, 3, 0⟩, ⟨3, 1, 0⟩]).directedCycle).map (·.cycleList) =
+    .ok (some [3, 1, 2, 3]) := by decide
+
+/-- a DAG whose insertion order is not topological -/
+def C14_exDag : Graph :=
+  buildDirected 6 [⟨5, 0, 0⟩, ⟨4, 0, 0⟩, ⟨5, 2, 0⟩, ⟨2, 3, 0⟩, ⟨3, 1, 0⟩, ⟨4, 1, 0⟩]
+
+example : (C14_exDag.directedCycle).map (·.cycleList) = .ok none := by decide
+
+/-- **Topological returns an order iff the graph is acyclic, and the order respects every arc**: the order
+lists every vertex exactly once, for every arc `u → v` the vertex `u` occurs strictly before `v`, and
+`Rank` is the inverse of `Order`. -/
+theorem C14_topological_iff_and_order_respects_edges (g : Graph) (hg : g.WF) :
+    ∃ t, g.topological = .ok t ∧
+      (t.order.isSome ↔ Acyclic g.HasArc) ∧ (t.rank.isSome ↔ t.order.isSome) ∧
+      ∀ order, t.order = some order →
+        IsPermOfRange g.n order ∧ RespectsArcs g.HasArc order ∧
+        ∃ rank : Array Nat, t.rank = some rank ∧ rank.size = g.n ∧
+          ∀ (j v : Nat), order[j]? = some v → rank[v]? = some j :=
+  topological_spec hg
+
+example : C14_exDag.topological = .ok ⟨some [5, 4, 2, 3, 1, 0], some #[5, 4, 2, 3, 1, 0]⟩ := by decide
+example : C14_exD.topological = .ok ⟨none, none⟩ := by decide
+
+/-! ## StronglyConnectedComponents (Kosaraju) -/
+
+/-- **StronglyConnectedComponents partitions the vertices exactly by mutual reachability**: it returns for
+every graph; every vertex gets an id `< count`; every id `< count` is in use; two vertices have the same id
+iff each reaches the other. -/
+theorem C14_scc_partition (g : Graph) (hg : g.WF) :
+    ∃ cc, g.stronglyConnectedComponents = .ok cc ∧ cc.id.size = g.n ∧
+      (∀ x, x < g.n → ∃ i, cc.id[x]? = some i ∧ i < cc.count) ∧
+      (∀ i, i < cc.count → ∃ x, x < g.n ∧ cc.id[x]? = some i) ∧
+      (∀ x y, x < g.n → y < g.n →
+        (cc.id[x]? = cc.id[y]? ↔ Reach g.HasArc x y ∧ Reach g.HasArc y x)) :=
+  scc_spec hg
+
+example : C14_exD.stronglyConnectedComponents = .ok ⟨3, #[2, 2, 2, 1, 0]⟩ := by decide
+
+/-- the SCC certificate the driver evaluates on every `scc` query is sound (second, independent line of
+evidence for the same conjunct; it ties the *evaluated* result to the property without the Kosaraju proof). -/
+theorem C14_scc_certificate_sound (g : Graph) (hg : g.WF) (c : Components) (h : sccCertificate g c = true) :
+    c.id.size = g.n ∧
+    (∀ v, v < g.n → c.id.getD v 0 < c.count) ∧
+    (∀ i, i < c.count → ∃ v, v < g.n ∧ c.id.getD v 0 = i) ∧
+    (∀ u v, u < g.n → v < g.n →
+      (c.id.getD u 0 = c.id.getD v 0 ↔ Reach g.HasArc u v ∧ Reach g.HasArc v u)) :=
+  sccCertificate_sound g hg c h
+
+example : (C14_exD.stronglyConnectedComponents).map (sccCertificate C14_exD) = .ok true := by decide +kernel
+
+/-! ## ShortestPathTree (Dijkstra) -/
+
+/-- `NewWeightedDirected(n, es…)`: every entry of `adj[u]` stores an edge `u → to`; the stored edges are
+exactly the valid edges of the list; no negative weight in the list ⇒ none in the graph. -/
+theorem C14_build_weighted_directed (n : Nat) (es : List EdgeIn) :
+    (buildDirected n es).DWF ∧ ((∀ e ∈ es, 0 ≤ e.w) → (buildDirected n es).NonNeg) ∧
+    ∀ a b e, (buildDirected n es).HasEdge a b e ↔
+      ∃ x ∈ es, 0 ≤ x.u ∧ x.u < (n : Int) ∧ 0 ≤ x.v ∧ x.v < (n : Int) ∧
+        (a : Int) = x.u ∧ (b : Int) = x.v ∧ e = ⟨a, b, x.w⟩ := by
+  refine ⟨(buildDirected_dwf n es).1, (buildDirected_dwf n es).2, ?_⟩
+  intro a b e
+  have := foldl_directed_hasEdge es (Graph.new n) (wf_new n) a b e
+  have hnew : ¬ (Graph.new n).HasEdge a b e := by
+    unfold Graph.HasEdge; rw [adj_new]; simp
+  simp only [hnew, false_or] at this
+  exact this
+
+/-- **ShortestPathTree returns, for non-negative weights, the minimum distance to every reachable vertex
+with a path of exactly that weight** (and `(nil, -1, false)` exactly for the unreachable ones): for a valid
+source the Model returns (no `panic`, no `diverge` with the fuel `n + 1`), and for every vertex `v`
+either no walk of stored edges leads from `s` to `v` and `PathTo(v)` answers `none`, or `PathTo(v)` answers a
+walk `p` from `s` to `v` of stored edges together with `d = weight(p)`, and no walk from `s` to `v` is lighter. -/
+theorem C14_spt_paths_realise_dist_and_shortest (g : Graph) (hg : g.WF) (hd : g.DWF) (hnn : g.NonNeg)
+    (s : Nat) (hs : s < g.n) :
+    ∃ t, g.shortestPathTree (s : Int) = .ok t ∧
+      ∀ v, v < g.n →
+        (t.pathTo (v : Int) = .ok none ∧ ¬ ∃ q, IsEdgeWalk g s v q) ∨
+        (∃ p d, t.pathTo (v : Int) = .ok (some (p, d)) ∧ IsEdgeWalk g s v p ∧ walkWeight p = d ∧
+          ∀ q, IsEdgeWalk g s v q → d ≤ walkWeight q) :=
+  spt_spec hg hd hnn s hs
+
+/-- zero weights, ties, a zero-weight cycle, parallel edges, an unreachable part -/
+def C14_exW : Graph :=
+  buildDirected 7 [⟨0, 1, 0⟩, ⟨1, 2, 0⟩, ⟨2, 0, 0⟩, ⟨0, 3, 5⟩, ⟨2, 3, 5⟩, ⟨1, 3, 4⟩, ⟨1, 3, 6⟩, ⟨3, 4, 1⟩,
+    ⟨3, 4, 1⟩, ⟨4, 4, 0⟩, ⟨5, 6, 2⟩, ⟨0, 0, 0⟩]
+
+example : C14_exW.WF ∧ C14_exW.DWF ∧ C14_exW.NonNeg :=
+  ⟨(C14_build_directed _ _).1, (C14_build_weighted_directed _ _).1,
+   (C14_build_weighted_directed _ _).2.1 (by decide)⟩
+example : (C14_exW.shortestPathTree 0).bind (·.pathTo 4) =
+    .ok (some ([⟨0, 1, 0⟩, ⟨1, 3, 4⟩, ⟨3, 4, 1⟩], 5)) := by decide
+example : (C14_exW.shortestPathTree 0).bind (·.pathTo 6) = .ok none := by decide
+example : (C14_exW.shortestPathTree 7).bind (·.pathTo 0) = .panic := by decide
+
+/-- the shortest-path certificate the driver evaluates on every `spt`/`sptto` query is sound:
+`distTo[s] = 0`, no relaxable edge and answers that realise their distance are shortest paths
+(this lemma does not need non-negative weights). -/
+theorem C14_spt_certificate_sound (g : Graph) (hg : g.WF) (s : Nat) (t : SPT)
+    (answers : List (Nat × Option (List Edge × Int))) (h : sptCertificate g s t answers = true) :
+    ∀ v a, (v, a) ∈ answers →
+      match a with
+      | none => ¬ ∃ q, IsEdgeWalk g s v q
+      | some (p, d) => IsEdgeWalk g s v p ∧ walkWeight p = d ∧ ∀ q, IsEdgeWalk g s v q → d ≤ walkWeight q :=
+  sptCertificate_sound g hg s t answers h
+
+/-! ## MinimumSpanningTree (eager Prim) -/
+
+/-- **MinimumSpanningTree returns a spanning forest** (undirected = symmetric graphs whose adjacency entries
+store an edge joining owner and neighbour, `C14_build_undirected` + `buildUndirected_uwf`): the Model
+returns (no `panic`/`diverge`); `Edges()` are the non-zero entries `edgeTo[w]` (`MST.edges`, by definition);
+every such entry is a stored edge of the graph joining `w` with a parent `p` (`TLink`); parents have a smaller
+rank, so the edges form a forest (every vertex has at most one parent edge and following parents never
+returns); and two vertices are joined by tree edges iff they are connected in the graph (spanning). -/
+theorem C14_mst_spanning_forest (g : Graph) (hg : g.WF) (hu : g.UWF) (hsym : g.Symmetric) :
+    ∃ m, g.minimumSpanningTree = .ok m ∧ m.edgeTo.size = g.n ∧
+      (∀ w, m.par w ≠ Edge.zero → ∃ p, TLink g m w p) ∧
+      (∃ rank : Nat → Nat, ∀ w p, TLink g m w p → rank p < rank w) ∧
+      (∀ u v, u < g.n → v < g.n → (Reach g.HasArc u v ↔ Reach (TArc g m) u v)) :=
+  mst_spec hg hu hsym
+
+/-- two components, parallel edges of different weight, zero and negative weights, a self-loop -/
+def C14_exM : Graph :=
+  buildUndirected 7 [⟨0, 1, 4⟩, ⟨1, 0, 2⟩, ⟨1, 2, 0⟩, ⟨0, 2, 0⟩, ⟨2, 3, -3⟩, ⟨3, 0, 5⟩, ⟨3, 3, -9⟩, ⟨4, 5, 1⟩,
+    ⟨5, 6, 1⟩, ⟨6, 4, 1⟩]
+
+example : C14_exM.WF ∧ C14_exM.UWF ∧ C14_exM.Symmetric :=
+  ⟨(C14_build_undirected _ _).1, buildUndirected_uwf _ _, (C14_build_undirected _ _).2.1⟩
+example : (C14_exM.minimumSpanningTree).map (fun m => (m.edges, m.weight)) =
+    .ok ([⟨1, 2, 0⟩, ⟨0, 2, 0⟩, ⟨2, 3, -3⟩, ⟨4, 5, 1⟩, ⟨6, 4, 1⟩], -1) := by decide
+example : (C14_exM.minimumSpanningTree).map (mstCertificate C14_exM) = .ok true := by decide +kernel
+
+/-- what is proved about the weight: `Weight()` is the sum of the weights of `Edges()` (see the comment
+below for the full statement and what is missing) -/
+theorem C14_mst_minimum_weight_partial (m : MST) : m.weight = (m.edges.map (·.w)).sum := by
+  unfold MST.weight
+  have : ∀ (l : List Edge) (acc : Int), l.foldl (fun acc e => acc + e.w) acc = acc + (l.map (·.w)).sum := by
+    intro l
+    induction l with
+    | nil => intro acc; simp
+    | cons e r ih => intro acc; simp only [List.foldl_cons, List.map_cons, List.sum_cons]; rw [ih]; omega
+  rw [this]; simp
+
+/-
+**Not proved: minimum total weight** (the remaining conjunct of the property for `MinimumSpanningTree`).
+
+Full statement:
+  theorem C14_mst_minimum_weight (g) (hg : g.WF) (hu : g.UWF) (hsym : g.Symmetric) (m) (hm : g.minimumSpanningTree = .ok m)
+      (F : List Edge)  -- any spanning forest of g (stored edges, acyclic, connecting exactly the components of g)
+      : m.weight ≤ (F.map (·.w)).sum
+
+What is missing: the exchange argument "cycle property (every graph edge is at least as heavy as every
+edge on the tree path between its ends) ⇒ minimum weight" and the proof that Prim's result has the cycle
+property (the heap part — `Delete` returns a least key — is proved in `Proofs/C14Heap.lean` and used for
+Dijkstra).  Evidence for this conjunct is translation validation: on every explored `mst` query the driver
+evaluates `mstCertificate` (spanning forest + cycle property + weight = sum) on the Model's result, and the
+harness compares the implementation's weight with an independent Kruskal.
+-/
